@@ -14,11 +14,11 @@ echo "== baseline with change" >> $L
 ./run_baseline.sh >> $L 2>&1
 B=$(grep "baseline tests" $L | tail -1)
 git stash -q
-echo "== build without change" >> $L
-./inrepo ninja -C /repo/_build -j8 >> $L 2>&1
+echo "== build without change (skipped when NOREBUILD=1: header-only change, the demo compiles the headers itself)" >> $L
+[ -n "$NOREBUILD" ] || ./inrepo ninja -C /repo/_build -j8 >> $L 2>&1
 echo "== demo without change" >> $L
 ./inrepo bash $WT/deliver/run.sh >> $L 2>&1; RC0=$?
 echo "rc=$RC0" >> $L
 git stash pop -q
-./inrepo ninja -C /repo/_build -j8 >> $L 2>&1
+[ -n "$NOREBUILD" ] || ./inrepo ninja -C /repo/_build -j8 >> $L 2>&1
 echo "seed=$ID demo_with_change_rc=$RC1 demo_without_change_rc=$RC0 $B"
